@@ -13,7 +13,10 @@ def run(R):
         if not quick:
             for _ in range(6):
                 st, _, tag = S.gen_setting(R.rng, m); corpus.append((m, S.gen_phrase(R.rng, 40), st))
-    corpus += [("yescrypt", b"pw", b"$y$j85$abcd"), ("yescrypt", b"pw", b"$y$j75/.$abcd"), ("scrypt", b"pw", b"$7$8..../....abcd"), ("gost_yescrypt", b"pw", b"$gy$j85$abcd")]
+    corpus += [("yescrypt", b"pw", b"$y$j85$abcd"), ("yescrypt", b"pw", b"$y$j75/.$abcd"), ("scrypt", b"pw", b"$7$8..../....abcd"), ("gost_yescrypt", b"pw", b"$gy$j85$abcd"),
+               # crypt_gensalt's default cost (N*r = 0x20000: yescrypt sizes its area in a separate pass first, another place where a refused
+               # mapping has to end the call - seeded/C15h) and the first cost with parallelism
+               ("yescrypt", b"pw", b"$y$j9T$abcd"), ("gost_yescrypt", b"pw", b"$gy$j9T$abcd"), ("yescrypt", b"pw", b"$y$j9T0..$abcd")]
     groups = []
     for m, ph, st in corpus:
         for entry in (["rn", "r", "st"] if not quick else ["rn", "r"]):
